@@ -102,8 +102,9 @@ def _chunk_worker(args) -> list[dict]:
         mod = load_check(prop)
         out = []
         for i in indices:
-            case = make_case(mod, verif_seed, tier, i)
+            case = None
             try:
+                case = make_case(mod, verif_seed, tier, i)
                 o = run_case(mod, case)
             except BaseException as exc:  # harness bug: report, never a pass
                 if isinstance(exc, KeyboardInterrupt):
